@@ -114,6 +114,9 @@ impl Parser for MarkdownParser {
                             line: starting_line_number,
                         });
                     }
+                    // a code block ends the paragraph before it: text after the
+                    // block is a paragraph of its own
+                    title_paragraph.clear();
                 }
                 MarkdownToken::TestCodeBlock {
                     language: _,
